@@ -292,12 +292,26 @@ func c13rewrite(s *influxql.SelectStatement, i int) {
 }
 
 var digits = regexp.MustCompile(`[0-9]+`)
+var hexAddr = regexp.MustCompile(`0x[0-9a-fA-F]+`)
 
 func panicClass(p interface{}) string {
-	s := fmt.Sprint(p)
+	var s string
+	switch v := p.(type) {
+	case error:
+		s = v.Error()
+	case string:
+		s = v
+	case fmt.Stringer:
+		s = v.String()
+	default:
+		// a value of the library's own (a struct, a pointer): its printed form holds addresses, which differ from
+		// run to run, so only the type goes into the signature
+		s = fmt.Sprintf("value of type %T", p)
+	}
 	if i := strings.Index(s, "\n"); i > 0 {
 		s = s[:i]
 	}
+	s = hexAddr.ReplaceAllString(s, "ADDR")
 	s = digits.ReplaceAllString(s, "N")
 	if len(s) > 90 {
 		s = s[:90]
@@ -458,6 +472,22 @@ func c13gramBody(c *xplore.Ctx) (text, form string, fs []ev.Finding, skipped boo
 	return text, spec.Form, fs, !ok
 }
 
+// c13prefixBody: every proper prefix (cut at a token boundary) of a statement of the corpus. ParseStatement reads one
+// statement and leaves the rest, so many prefixes are accepted: optional clauses cut off, and whatever a handler
+// accepts although its operand is missing. What is accepted must survive every operation like any other statement.
+func c13prefixBody(c *xplore.Ctx) (text, form string, fs []ev.Finding, skipped bool) {
+	g := gram.New(c)
+	g.NoValueAlts = true
+	spec := gram.Statement(g)
+	if g.InvalidWhy != "" || len(spec.Toks) < 2 {
+		return "", spec.Form, nil, true
+	}
+	n := 1 + c.Free(len(spec.Toks)-1)
+	text = gram.Render(nil, spec.Toks[:n])
+	fs, ok, _ := c13runText(text, c13oddCase{Text: text}, c.TotalCost()*1000+len(text))
+	return text, spec.Form + ":prefix", fs, !ok
+}
+
 func c13run(r *ev.Run) {
 	th := thorough(r)
 	sets := []boundSet{{"struct<=3", []int{3, 0, 0}}}
@@ -465,6 +495,13 @@ func c13run(r *ev.Run) {
 		sets = []boundSet{{"struct<=2,value<=1", []int{2, 0, 1}}, {"struct<=3", []int{3, 0, 0}}}
 	}
 	runGrammar(r, sets, c13gramBody)
+	first := r.Extra["bound_sets"]
+	psets := []boundSet{{"prefixes: struct<=2 x every cut at a token boundary", []int{2, 0, 0}}}
+	if th {
+		psets = []boundSet{{"prefixes: struct<=3 x every cut at a token boundary", []int{3, 0, 0}}}
+	}
+	runGrammar(r, psets, c13prefixBody)
+	r.Set("bound_sets", []interface{}{first, r.Extra["bound_sets"]})
 	// odd shapes
 	maxArgs := 2
 	if th {
@@ -515,5 +552,5 @@ func c13run(r *ev.Run) {
 	r.Set("odd_shape_texts_generated", len(texts))
 	r.Set("operations_per_statement", len(c13stmtOps))
 	r.Set("operations_per_select", len(c13selOps))
-	r.Rule = fmt.Sprintf("statements = grammar-model corpus within the bound + odd shapes (16 function names x every argument list of <=%d from 15 arguments x 5 positions, and %d hand-picked shapes: zero/negative intervals, fractional divisors, regex operators next to arithmetic, wildcards in odd places; plus every operator between every pair of 18 operand kinds and every prefix of four timestamp spellings as a string in five comparison contexts); on every accepted statement each of %d statement-level and, for every SELECT inside it, %d select-level operations is run on a freshly parsed copy with panics recovered. non-trivial = accepted by the parser", maxArgs, len(c13extra), len(c13stmtOps), len(c13selOps))
+	r.Rule = fmt.Sprintf("statements = grammar-model corpus within the bound, every proper prefix of its statements cut at a token boundary that the parser accepts, + odd shapes (16 function names x every argument list of <=%d from 15 arguments x 5 positions, and %d hand-picked shapes: zero/negative intervals, fractional divisors, regex operators next to arithmetic, wildcards in odd places; plus every operator between every pair of 18 operand kinds and every prefix of four timestamp spellings as a string in five comparison contexts); on every accepted statement each of %d statement-level and, for every SELECT inside it, %d select-level operations is run on a freshly parsed copy with panics recovered. non-trivial = accepted by the parser", maxArgs, len(c13extra), len(c13stmtOps), len(c13selOps))
 }
